@@ -71,6 +71,16 @@ instance : Inhabited Ast := ⟨.member default (.null default) []⟩
 def Ast.span : Ast → Span
   | .tern sp .. | .match_ sp .. | .bin sp .. | .notRun sp .. | .negRun sp .. | .member sp .. => sp
 
+def Prim.span : Prim → Span
+  | .ident sp _ | .parens sp _ | .list sp _ | .map sp _ | .null sp | .int sp _ | .uint sp _
+  | .float sp _ | .str sp _ | .bytes sp _ | .bool sp _ | .fstr sp _ => sp
+
+def MOp.span : MOp → Span
+  | .access sp .. => sp | .call sp _ => sp | .index sp _ => sp
+
+def Pat.span : Pat → Span
+  | .cmp sp .. => sp | .type sp .. => sp | .any sp => sp
+
 /-- Level of a node in the grammar. -/
 def Ast.level : Ast → Nat
   | .tern .. | .match_ .. => 0
